@@ -1,6 +1,7 @@
 package main
 
 import (
+	"os"
 	"encoding/json"
 	"fmt"
 	"go/ast"
@@ -242,7 +243,11 @@ func genAcceptedReal() (string, error) {
 	}
 	fmt.Fprintf(&b, "def accepted_version_schema : List Bytes := %s\n", leanStrList(vs))
 	// rpmpack setupCompressor of the linked module version
-	out, err := exec.Command("go", "list", "-m", "-f", "{{.Dir}}", "github.com/google/rpmpack").Output()
+	// resolved in the module under test, whatever the working directory of the translator is
+	lcmd := exec.Command("go", "list", "-m", "-f", "{{.Dir}}", "github.com/google/rpmpack")
+	lcmd.Dir = *repo
+	lcmd.Env = append(os.Environ(), "GOFLAGS=-mod=mod", "GOPROXY=off", "GOSUMDB=off", "GOTOOLCHAIN=local")
+	out, err := lcmd.Output()
 	if err != nil {
 		return "", fmt.Errorf("go list rpmpack: %w", err)
 	}
